@@ -182,6 +182,14 @@ const callFormsFile = `{namespace pr}
 {msg desc="lone placeholder"}{plural 2}{case 1}a{default}{$m?.a}{/plural}{/msg}
 {msg desc="three cases"}{plural 0}{case 0}none for {$m?.s}{case 1}one{default}{$m?.a} many for {$m?.s}{/plural}{/msg}
 {/template}
+/** */
+{template .samewords1}
+{let $n: 2 /}{msg desc="counted by n"}{plural $n}{case 1}One apple{default}Several apples{/plural}{/msg}{msg desc="plain"}Several apples{/msg}
+{/template}
+/** */
+{template .samewords2}
+{let $count: 2 /}{msg desc="counted by count"}{plural $count}{case 1}One apple{default}Several apples{/plural}{/msg}
+{/template}
 /** @param? m */
 {template .funcforms}
 {randomInt(1)}{randomInt(1) + length(keys(augmentMap(['a': 1], ['b': 2])))}|{round(2.567, 2)}|{round(2.5)}|{floor(2.5)}|{ceiling(2.5)}|{min(1, 2.5)}|{max(1, 2)}|{strContains('abc', 'b')}|{length(range(3))}|{hasData()}|{isNonnull($m)}
@@ -386,7 +394,7 @@ func c08History(r *fw.Rand, tier, config string, nops int) (files []srcFile, pro
 	if config == "custom" {
 		names = append(names, "cust.t")
 	}
-	names = append(names, "pr.callforms", "pr.callforms", "pr.dirforms", "pr.funcforms", "pr.pluralforms", "pr.pluralforms")
+	names = append(names, "pr.callforms", "pr.callforms", "pr.dirforms", "pr.funcforms", "pr.pluralforms", "pr.pluralforms", "pr.samewords1", "pr.samewords2", "pr.samewords2", "pr.samewords1")
 	for k := 0; k < nops; k++ {
 		if r.P(1, 4) {
 			ops = append(ops, c08Op{kind: "js", file: r.Intn(64), es6: r.Bool(), msgs: r.P(1, 3), viaGen: r.P(1, 4)})
